@@ -18,6 +18,11 @@ Theorem follow_terminates :
   forall gmatch view reqs, follow_links gmatch view (fuel_bound view reqs) reqs <> OutOfFuel.
 Proof. exact FollowLinksP.follow_terminates_proof. Qed.
 
+(* the correspondence run evaluates the same fuel without building the candidate keys *)
+Theorem fuel_bound_fast_eq :
+  forall view reqs, fuel_bound_fast view reqs = fuel_bound view reqs.
+Proof. exact FollowLinksP.fuel_bound_fast_eq_proof. Qed.
+
 (* ---- the result is sorted bytewise (strictly), no element is inside another
         (strings.HasPrefix(b, a+"/")), it is nil exactly when "." was resolved, and a
         request that denotes the root makes it nil ---- *)
@@ -288,6 +293,7 @@ Example transfer_star_instances :
 Proof. vm_compute. repeat split; reflexivity. Qed.
 
 Print Assumptions follow_terminates.
+Print Assumptions fuel_bound_fast_eq.
 Print Assumptions result_sorted_minimal.
 Print Assumptions result_covers_resolved.
 Print Assumptions result_closed.
